@@ -292,8 +292,26 @@ fn gen_c02(rng: &mut Prng, seed: u64, thorough: bool) -> Trace {
     let nodes = 2;
     let nm = 1 + rng.usize_below(2);
     let (members, mut log, _reg) = gen_world(rng, nm);
+    // fillers at low positions that later events remove (single and batch removal) or overwrite
+    let taken: std::collections::BTreeSet<usize> = members.iter().map(|m| m.index).collect();
+    let low: Vec<usize> = (2..60usize).filter(|i| !taken.contains(i)).collect();
+    let f: Vec<usize> = (0..4).map(|k| low[(rng.usize_below(low.len() / 4) * 4 + k) % low.len()]).collect();
+    for i in &f {
+        log.push(LogEv::Set { index: *i, value: fr_from_le(&rng.bytes(32)) });
+    }
     let base_len = log.len();
     let window = 2 + rng.usize_below(3);
+    // the tree moves on through every membership API shape, one event at a time (the first one is what the
+    // "moved on by one" deliveries below see): removal, batch removal, range write, single write
+    let mut moves = vec![
+        LogEv::Remove { index: f[0] },
+        LogEv::RemoveMany { indices: vec![f[1], f[2]] },
+        LogEv::Range { start: 100 + rng.usize_below(50), values: vec![fr_from_le(&rng.bytes(32)), fr_from_le(&rng.bytes(32))] },
+        LogEv::Set { index: 7000 + rng.usize_below(1000), value: fr_from_le(&rng.bytes(32)) },
+    ];
+    let k = rng.usize_below(moves.len());
+    moves.swap(0, k);
+    log.extend(moves);
     // enough later events to push a root out of the window
     for _ in 0..(window + 2) {
         log.push(LogEv::Set { index: 7000 + rng.usize_below(1000), value: fr_from_le(&rng.bytes(32)) });
